@@ -248,6 +248,10 @@ func (blockchain *Blockchain) Update(timestamp int64) {
 	if isReplaced {
 		blockchain.mutex.Lock()
 		defer blockchain.mutex.Unlock()
+		if len(blockchain.blocks) != len(hostBlocks) || (len(hostBlocks) > 0 && blockchain.blocks[len(hostBlocks)-1] != hostBlocks[len(hostBlocks)-1]) {
+			blockchain.logger.Debug("verification done: blockchain changed during the verification, kept")
+			return
+		}
 		var newBlocks []*ledger.Block
 		if isFork {
 			blockchain.registry.Clear()
